@@ -1,4 +1,5 @@
 """C16 Request ids are unique per connection under concurrent use."""
+import collections
 import dis
 import io
 import logging
@@ -400,6 +401,9 @@ def stress_round(ctx, seed, interleavings, case_no):
                     # (the caller's headers may be a case-insensitive container, the key spelled in lower case)
                     verb("/p", headers=(CIDict({'x-request-id': own_id}) if k % 40 == 3 else {'X-Request-ID': own_id}),
                          **kw)
+                elif k % 10 == 2:
+                    # headers in a mapping that never raises KeyError (no id of the caller's in it)
+                    verb("/p", headers=collections.defaultdict(str, {'X-Worker': str(i)}), **kw)
                 elif k % 10 in (5, 6, 8):
                     verb("/p", headers=reused, **kw)
                 elif k % 10 == 9 and 'params' not in kw:
@@ -478,6 +482,35 @@ def long_run(ctx, n_requests):
         return
     ctx.count("long_run_requests", numbered)
     judge_history(ctx, op.reqs, None, own, {"workload": "long", "requests": n_requests}, adapter_ids=op.adapter_ids)
+
+
+def independent_roots(ctx):
+    """connections created independently of each other - also for one and the same address - are different
+    connections: each numbers its own requests 0, 1, 2, ... whatever the others do"""
+    for addr_a, addr_b in (("https://h.example", "https://h.example"), ("https://h.example/", "https://h.example"),
+                           ("http://h.example", "http://h.example"), ("https://h.example", "http://h.example")):
+        ctx.evaluated()
+        a = conn_http.HttpConn(addr_a)
+        b = conn_http.BAuthConn(addr_b, "u", "p")
+        op_a, op_b = Opener(), Opener()
+        a.conn_impl.opener = op_a
+        b.conn_impl.opener = op_b
+        n_a = n_b = 0
+        for k in range(40):
+            if k % 3 == 1:
+                b.get("/p")
+                n_b += 1
+            else:
+                a.post("/p")
+                n_a += 1
+        case = {"workload": "independent-roots", "addresses": [addr_a, addr_b]}
+        ctx.count("independent_connection_pairs")
+        for op, n in ((op_a, n_a), (op_b, n_b)):
+            if len(op.reqs) != n:
+                ctx.violation("independent-connections-share-an-implementation",
+                              {"requests_made": n, "requests_seen": len(op.reqs), "addresses": [addr_a, addr_b]}, case)
+                break
+            judge_history(ctx, op.reqs, None, [], case)
 
 
 def offset_scenario(ctx, off, variant):
@@ -582,6 +615,7 @@ def run_shard(ctx):
         ctx.evaluated()
         stress_round(ctx, hash((ctx.seed, ctx.shard, i)) & 0xffffffff, interleavings, i)
     if ctx.shard == 0:
+        independent_roots(ctx)
         ctx.evaluated()
         long_run(ctx, 10400 if ctx.tier == "quick" else 101000)
     ctx.evaluated()
@@ -598,7 +632,9 @@ def run_shard(ctx):
 
 def replay(ctx, case):
     ctx.evaluated()
-    if case["workload"] == "first-requests":
+    if case["workload"] == "independent-roots":
+        independent_roots(ctx)
+    elif case["workload"] == "first-requests":
         first_requests_race(ctx, case["seed"], case["rounds"])
     elif case["workload"] == "long":
         long_run(ctx, case["requests"])
